@@ -46,11 +46,19 @@ fn main() {
         if line.trim().is_empty() { continue; }
         let v: serde_json::Value = serde_json::from_str(&line).unwrap();
         let bytes: Vec<u8> = v["stream"].as_array().unwrap().iter().map(|b| b.as_u64().unwrap() as u8).collect();
-        let sock = tokio::net::TcpStream::from_bytes(bytes);
+        let mut sock = tokio::net::TcpStream::from_bytes(bytes);
+        if let Some(sg) = v["segments"].as_array() { sock.segments = sg.iter().map(|x| x.as_u64().unwrap() as usize).collect(); }
         let out = sock.output.clone();
         let reads = sock.reads.clone();
         let ctl = std::sync::Arc::new(controller::NodeController::new());
-        let r = tokio::block_on(handle_connection(sock, ctl));
+        let r = std::panic::catch_unwind(std::panic::AssertUnwindSafe(|| tokio::block_on(handle_connection(sock, ctl))));
+        let r = match r {
+            Ok(r) => r,
+            Err(_) => {
+                println!("{}", serde_json::json!({"result": "panic", "output": *out.lock().unwrap(), "reads": *reads.lock().unwrap()}));
+                continue;
+            }
+        };
         println!("{}", serde_json::json!({"result": if r.is_ok() { "ok".to_string() } else { format!("err: {}", r.unwrap_err()) },
             "output": *out.lock().unwrap(), "reads": *reads.lock().unwrap()}));
     }
